@@ -15,6 +15,7 @@ discriminant or on the member itself), unions laid out *before* their discrimina
 temporary buffer), abstract types with factory dispatch, inherited headers.
 -/
 import SymbolVerif.Proofs.Codec.StructFactory
+import SymbolVerif.Proofs.Codec.DedFuel
 import SymbolVerif.Generated.SymbolSchema
 import SymbolVerif.Generated.NemSchema
 namespace SymbolVerif.C01
@@ -64,11 +65,41 @@ theorem factory_agrees (hwf : WF S = true) {a c : String} {da dc : StructDef}
     have hadmc : admN S T (k + 1) c v = true := hok (admN S T k) hadm
     exact ⟨(roundtrip hwf (n := k + 1) hea hadm).2 tail, (roundtrip hwf henc hadmc).2 tail⟩
 
+/-! ### decode-encode-decode
+
+FULL STATEMENT (fourth clause of the property; `WFD` is the decode-side part of well-formedness):
+
+    theorem decode_admissible : WF S = true → WFD S = true → (recN S T n).dec ty bs = .ok v →
+        admN S T n ty v = true ∧ ∃ b', (recN S T n).enc ty v = .ok b'
+
+It is FALSE in this generality (`Examples.overflowSchema` below): `decode` is lenient (integers past the end of
+the buffer read as 0), so the size re-computed by `encode` for a size / byte-size / size-of / size-ref
+member is not bounded by the input and may not fit the member's width. PROVED: the statement with the
+decidable hypothesis `fitN S T sup n ty v` -- the re-computed derived sizes inside `v` fit their members,
+and every struct object inside `v` is of a definition satisfying `sup`; at present `sup` must imply
+`StructDef.noUnion` (no member laid out before its discriminant). -/
+
+theorem decode_admissible_partial (hwf : WF S = true) (hwd : WFD S = true) {n : Nat} {ty : String} {bs : Bytes} {v : Val}
+    (hdec : (recN S T n).dec ty bs = .ok v) (hfit : fitN S T StructDef.noUnion n ty v = true) :
+    admN S T n ty v = true ∧ ∃ b', (recN S T n).enc ty v = .ok b' :=
+  (recN_ded T hwf hwd StructDef.noUnion (fun _ h => h) n).dec ty bs v hdec hfit
+
+/-- whatever decodes re-encodes, and the re-encoding decodes to the same value -/
+theorem ded_stable_partial (hwf : WF S = true) (hwd : WFD S = true) {ty : String} {bs : Bytes} {v : Val}
+    (hdec : decode S T ty bs = .ok v) (hfit : fitN S T StructDef.noUnion (defaultFuel S) ty v = true) :
+    ∃ b', encode S T ty v = .ok b' ∧ decode S T ty b' = .ok v ∧ size S T ty v = .ok b'.length := by
+  obtain ⟨hadm, b', hb'⟩ := decode_admissible_partial hwf hwd hdec hfit
+  exact ⟨b', hb', decode_encode hwf hb' hadm, size_eq_length hwf hb' hadm⟩
+
 /-! ### the shipped schemas -/
 
 theorem symbol_wf : WF Generated.Symbol.schema = true := by decide +kernel
 
 theorem nem_wf : WF Generated.Nem.schema = true := by decide +kernel
+
+theorem symbol_wfd : WFD Generated.Symbol.schema = true := by decide +kernel
+
+theorem nem_wfd : WFD Generated.Nem.schema = true := by decide +kernel
 
 theorem symbol_roundtrip {T : String → Bytes → Bytes} {n : Nat} {ty : String} {v : Val} {b : Bytes}
     (henc : (recN Generated.Symbol.schema T n).enc ty v = .ok b)
@@ -175,6 +206,20 @@ example : hyps Generated.Symbol.schema "NamespaceRegistrationTransactionV1" (nsR
 
 /-- not admissible: both members of the union absent / an absent member holding a value -/
 example : adm Generated.Symbol.schema idT "NamespaceRegistrationTransactionV1" (nsReg 2) = false := by decide +kernel
+
+/-- a well-formed schema for which `decode_admissible` fails without the `fitN` hypothesis: the empty buffer
+    decodes (leniently) to an object of 301 bytes, whose size does not fit the one-byte size member -/
+def overflowSchema : Schema := [("X", .struct {
+  fields := [{ name := "size", kind := .sizeF 1 }, { name := "a", kind := .int 300 false }] })]
+
+/-- `bs` decodes, and what it decodes to does not encode (size overflow) -/
+def decodesButOverflows (S : Schema) (ty : String) (bs : Bytes) : Bool :=
+  match decode S idT ty bs with
+  | .ok v => (match encode S idT ty v with | .error .overflow => true | _ => false)
+  | .error _ => false
+
+example : WF overflowSchema = true ∧ WFD overflowSchema = true ∧ decodesButOverflows overflowSchema "X" [] = true := by
+  decide +kernel
 
 end Examples
 
